@@ -12,7 +12,7 @@ def safeByte (b : Nat) : Bool := keepByte b && b != 124
 /-- what a decoded scalar of a field with base type `bt` (a `typedef.Bool` field if `isBool`) looks like;
 strings within the safe alphabet -/
 def scalarOK (bt : Nat) (isBool : Bool) : Value → Bool
-  | .bool v => isBool && v < 256
+  | .bool v => isBool && bt == btEnum && v < 256
   | .uint8 v => !isBool && btIsUint8 bt && v < 2 ^ 8
   | .int8 v => !isBool && bt == btSint8 && v < 2 ^ 8
   | .int16 v => !isBool && bt == btSint16 && v < 2 ^ 16
